@@ -2,9 +2,12 @@ package main
 
 import (
 	"bytes"
+
 	"encoding/hex"
 	"fmt"
+	"golang.org/x/text/language"
 	"io"
+	"seehuhn.de/go/xmp"
 	"sort"
 	"strings"
 
@@ -29,7 +32,10 @@ func init() {
 	addReplay("C10", "specfile", replayC10SpecFile)
 }
 
-func methodOfCF(cf string) string {
+func methodOfCF(cf string, V int) string {
+	if cf == "rc4-128" && V >= 4 {
+		return "v2cf" // RC4 as the /V2 method of the standard crypt filter
+	}
 	switch cf {
 	case "aes-128":
 		return "aesv2"
@@ -206,7 +212,7 @@ func replayC10Spec(input string) (bool, string) {
 func c10SpecQueries(d *secDoc, genSeed, rngSeed uint64, idx int, r *Rand) []specQuery {
 	var qs []specQuery
 	R := d.sec.R
-	method := methodOfCF(d.strF)
+	method := methodOfCF(d.strF, d.encV())
 	keyS := hexWire(d.sec.Key)
 	owner := d.owner
 	if owner == "" {
@@ -301,6 +307,24 @@ func c10SpecQueries(d *secDoc, genSeed, rngSeed uint64, idx int, r *Rand) []spec
 			qs = append(qs, specQuery{op: op, want: want, key: "C10-spec-decrypt-string",
 				desc: fmt.Sprintf("%s: Spec decryption of a string of object %v", d.describe(), wo.ref), replay: op + " => " + want})
 		}
+		if wo.isStream && wo.cryptIdent && d.encV() < 4 {
+			// crypt filters (and with them /Crypt stream filters) exist only for /V 4 and 5; in a
+			// /V 1 or 2 file a reader written from the standard decrypts every stream (7.6.2), so
+			// the stored bytes must be the ciphertext of what the filters behind /Crypt yield
+			if stm, ok := rawObj.(*pdf.Stream); ok {
+				stored, _ := io.ReadAll(stm.NewReader())
+				want := wo.body
+				if f, isArr := stm.Dict["Filter"].(pdf.Array); isArr && len(f) > 1 {
+					want = nil // further filters: compare only for the plain case
+				}
+				if want != nil {
+					op := fmt.Sprintf("SEC spec.dec %s %s %d %d %s", method, keyS, num, gen, hexWire(stored))
+					ws := "ok " + hexWire(want)
+					qs = append(qs, specQuery{op: op, want: ws, key: "C10-crypt-filter-without-crypt-filters",
+						desc: fmt.Sprintf("%s: stream %v has /Filter /Crypt and is stored in the clear, but the encryption dictionary has /V %d (no crypt filters): a standard reader decrypts it", d.describe(), wo.ref, d.encV()), replay: op + " => " + ws})
+				}
+			}
+		}
 		if wo.isStream && !wo.cryptIdent {
 			stm, ok := rawObj.(*pdf.Stream)
 			if !ok {
@@ -390,6 +414,9 @@ type specFile struct {
 	rnd      []byte
 	items    []specItem
 	perm     pdf.Perm // the permission set P was made from (closed under the implications)
+	sel      string   // S (StdCF) / I (Identity) for /StmF, /StrF, /EFF; only with crypt filters
+	metaRef  pdf.Reference
+	metaText string // title of the XMP packet which is the catalog's /Metadata (uncompressed)
 }
 
 type specItem struct {
@@ -397,6 +424,23 @@ type specItem struct {
 	iv       []byte
 	plain    []byte
 	isStream bool
+	kind     byte // 's' strings, 't' stream, 'e' embedded file stream, 'm' the catalog's metadata stream
+}
+
+func (f *specFile) hasCF() bool { return f.method != "v2" }
+
+// applies reports whether the standard crypt filter (rather than Identity) is selected for a kind.
+func (f *specFile) applies(kind byte) bool {
+	if !f.hasCF() {
+		return true
+	}
+	switch kind {
+	case 's':
+		return f.sel[1] == 'S'
+	case 'e':
+		return f.sel[2] == 'S'
+	}
+	return f.sel[0] == 'S'
 }
 
 // pFromPerm encodes a permission set as /P following ISO 32000-2 Table 22
@@ -440,7 +484,16 @@ func pFromPerm(p pdf.Perm, R int) uint32 {
 
 func genSpecFile(r *Rand, idx int) *specFile {
 	f := &specFile{}
-	switch idx % 5 {
+	f.sel = "SSS"
+	switch idx % 8 {
+	case 5:
+		f.method, f.bits = "v2cf", 128
+		f.sel = Pick(r, []string{"SSS", "IIS", "SSI"})
+	case 6:
+		f.method, f.bits = "aesv2", 128
+		f.sel = Pick(r, []string{"IIS", "SSI", "ISS", "SIS"}) // e.g. "encrypt attachments only"
+	case 7:
+		f.method, f.bits = "aesv2", 128
 	case 0:
 		f.method, f.bits = "v2", 40
 	case 1:
@@ -455,7 +508,7 @@ func genSpecFile(r *Rand, idx int) *specFile {
 	}
 	R := 3
 	switch {
-	case f.method == "aesv2":
+	case f.method == "aesv2" || f.method == "v2cf":
 		R = 4
 	case f.method == "aesv3":
 		R = 6
@@ -496,7 +549,10 @@ func genSpecFile(r *Rand, idx int) *specFile {
 		case 1:
 			ref = pdf.NewReference(uint32(70000+r.Intn(1<<23)+i), uint16(r.Intn(3)))
 		}
-		it := specItem{ref: ref, iv: r.Bytes(16), isStream: i == n-1}
+		it := specItem{ref: ref, iv: r.Bytes(16), isStream: i == n-1, kind: 's'}
+		if it.isStream {
+			it.kind = 't'
+		}
 		switch r.Intn(4) {
 		case 0:
 			it.plain = nil
@@ -506,6 +562,33 @@ func genSpecFile(r *Rand, idx int) *specFile {
 			it.plain = newNeedle(r, 12+r.Intn(40))
 		}
 		f.items = append(f.items, it)
+	}
+	next := uint32(3 + n)
+	if f.hasCF() {
+		// an embedded file stream: /EFF selects its crypt filter
+		f.items = append(f.items, specItem{ref: pdf.NewReference(next, 0), iv: r.Bytes(16), isStream: true, kind: 'e',
+			plain: newNeedle(r, 20+r.Intn(40))})
+		next++
+	}
+	if f.method == "aesv2" || f.method == "aesv3" {
+		// the catalog's XMP metadata as an uncompressed stream whose length is a multiple of 16:
+		// its last cipher block is padding only
+		f.metaText = string(newNeedle(r, 18))
+		packet := xmp.NewPacket()
+		dc := &xmp.DublinCore{}
+		dc.Title.Set(language.Und, f.metaText)
+		if packet.Set(dc) == nil {
+			var raw bytes.Buffer
+			if packet.Write(&raw, nil) == nil {
+				packet.PadToLength = (raw.Len()/16 + 4) * 16
+				var padded bytes.Buffer
+				if packet.Write(&padded, nil) == nil && padded.Len()%16 == 0 {
+					f.emd = true // the metadata stream is encrypted like every other stream
+					f.metaRef = pdf.NewReference(next, 0)
+					f.items = append(f.items, specItem{ref: f.metaRef, iv: r.Bytes(16), isStream: true, kind: 'm', plain: padded.Bytes()})
+				}
+			}
+		}
 	}
 	return f
 }
@@ -522,15 +605,19 @@ func (f *specFile) prepared(pw string) []byte {
 func (f *specFile) opLine() string {
 	var items []string
 	for _, it := range f.items {
-		items = append(items, fmt.Sprintf("%d:%d:%s:%s", it.ref.Number(), it.ref.Generation(), hexWire(it.iv), hexWire(it.plain)))
+		kind := it.kind
+		if kind == 'm' {
+			kind = 't' // an ordinary stream as far as the crypt filter goes (EncryptMetadata is true)
+		}
+		items = append(items, fmt.Sprintf("%d:%d:%s:%s:%c", it.ref.Number(), it.ref.Generation(), hexWire(it.iv), hexWire(it.plain), kind))
 	}
-	return fmt.Sprintf("SEC spec.file %s %d %d %d %d %s %s %s %s %s %s %s", f.method, f.bits, secB2i(f.rev3), f.P, secB2i(f.emd),
+	return fmt.Sprintf("SEC spec.file %s %s %d %d %d %d %s %s %s %s %s %s %s", f.method, f.sel, f.bits, secB2i(f.rev3), f.P, secB2i(f.emd),
 		hexWire(f.id0), hexWire(f.prepared(f.user)), hexWire(f.prepared(f.owner)), hexWire(f.fkey), hexWire(f.salts), hexWire(f.rnd),
 		strings.Join(items, ","))
 }
 
 func (f *specFile) describe() string {
-	return fmt.Sprintf("spec file %s/%d rev3=%v P=%d emd=%v user=%q owner=%q items=%d", f.method, f.bits, f.rev3, f.P, f.emd, f.user, f.owner, len(f.items))
+	return fmt.Sprintf("spec file %s/%d sel=%s rev3=%v P=%d emd=%v meta=%v user=%q owner=%q items=%d", f.method, f.bits, f.sel, f.rev3, f.P, f.emd, f.metaRef != 0, f.user, f.owner, len(f.items))
 }
 
 // assemble builds a PDF file around the Spec's answer "ok <dict> <key> <c1,c2,…>".
@@ -567,6 +654,8 @@ func (f *specFile) assemble(answer string) ([]byte, error) {
 	}
 	version := "1.4"
 	switch f.method {
+	case "v2cf":
+		version = "1.5"
 	case "aesv2":
 		version = "1.6"
 	case "aesv3":
@@ -585,13 +674,26 @@ func (f *specFile) assemble(answer string) ([]byte, error) {
 		body()
 		buf.WriteString("\nendobj\n")
 	}
-	put(pdf.NewReference(1, 0), func() { buf.WriteString("<< /Type /Catalog /Pages 2 0 R >>") })
+	put(pdf.NewReference(1, 0), func() {
+		if f.metaRef != 0 {
+			fmt.Fprintf(&buf, "<< /Type /Catalog /Pages 2 0 R /Metadata %d 0 R >>", f.metaRef.Number())
+		} else {
+			buf.WriteString("<< /Type /Catalog /Pages 2 0 R >>")
+		}
+	})
 	put(pdf.NewReference(2, 0), func() { buf.WriteString("<< /Type /Pages /Kids [] /Count 0 >>") })
 	for i, it := range f.items {
 		ct := cts[i]
 		if it.isStream {
 			put(it.ref, func() {
-				fmt.Fprintf(&buf, "<< /Length %d >>\nstream\n", len(ct))
+				extra := ""
+				switch it.kind {
+				case 'e':
+					extra = " /Type /EmbeddedFile"
+				case 'm':
+					extra = " /Type /Metadata /Subtype /XML"
+				}
+				fmt.Fprintf(&buf, "<<%s /Length %d >>\nstream\n", extra, len(ct))
 				buf.Write(ct)
 				buf.WriteString("\nendstream")
 			})
@@ -627,7 +729,7 @@ func (f *specFile) check(data []byte) (string, string, bool) {
 	permAgree := true
 	R := 3
 	switch {
-	case f.method == "aesv2":
+	case f.method == "aesv2" || f.method == "v2cf":
 		R = 4
 	case f.method == "aesv3":
 		R = 6
@@ -663,7 +765,11 @@ func (f *specFile) check(data []byte) (string, string, bool) {
 				}
 				if !ok || err != nil || !bytes.Equal(body, it.plain) {
 					rd.Close()
-					return "C10-spec-file-content", fmt.Sprintf("%s password: stream %v not recovered (%v): got %x want %x", who, it.ref, err, body, it.plain), permAgree
+					cls := "C10-spec-file-content"
+					if it.kind == 'e' && f.sel[2] != f.sel[0] {
+						cls = "C10-spec-file-eff-ignored"
+					}
+					return cls, fmt.Sprintf("%s password: %s stream %v (crypt filters /StmF /StrF /EFF = %s) not recovered (%v): got %.60x want %.60x", who, map[byte]string{'t': "plain", 'e': "embedded file", 'm': "metadata"}[it.kind], it.ref, f.sel, err, body, it.plain), permAgree
 				}
 			} else {
 				dict, _ := obj.(pdf.Dict)
@@ -677,6 +783,19 @@ func (f *specFile) check(data []byte) (string, string, bool) {
 					rd.Close()
 					return "C10-spec-file-content", fmt.Sprintf("%s password: strings of %v not recovered: got %x / %x want %x", who, it.ref, []byte(s), []byte(a0), it.plain), permAgree
 				}
+			}
+		}
+		if f.metaRef != 0 {
+			m := rd.GetMeta().Catalog.Metadata
+			got := ""
+			if m != nil && m.Data != nil {
+				var dc xmp.DublinCore
+				m.Data.Get(&dc)
+				got = dc.Title.Best(language.Und)
+			}
+			if got != f.metaText {
+				rd.Close()
+				return "C10-spec-file-metadata-dropped", fmt.Sprintf("%s password: the catalog's XMP metadata (AES, uncompressed, %d bytes = 16·%d) is not returned by the Reader: Catalog.Metadata = %v, title %q, want %q", who, len(f.items[len(f.items)-1].plain), len(f.items[len(f.items)-1].plain)/16, m != nil, got, f.metaText), permAgree
 			}
 		}
 		// permissions are not part of C10's statement; recorded as a statistic
